@@ -35,7 +35,8 @@ BOUNDS = {
              'second concrete recipient; header block from a menu, body of '
              'b<=2 symbolic bytes; server advertising SIZE and/or AUTH or '
              'neither; the edge answering end-of-data with a symbolic 2xx/'
-             '4xx/5xx code.  HTTP hop: the same address forms through '
+             '4xx/5xx code, or refusing the sender, every recipient or the '
+             'first recipient with a symbolic 4xx/5xx code.  HTTP hop: the same address forms through '
              '_build_headers -> (headers joined with ", ") -> _get_sender / '
              '_get_recipients, reply header round trip with a symbolic code',
     'thorough': 'k<=3, b<=2',
@@ -72,6 +73,10 @@ def cells(tier):
                 continue
             out.append({'kind': 'smtp', 'form': form, 'k': k if form != 'null'
                         else 0, 'ext': ext, 'b': 2 if form == 'atext' else 1})
+    out.append({'kind': 'smtp', 'form': 'atext', 'k': 1, 'ext': 'none',
+                'b': 0, 'stages': 1})
+    out.append({'kind': 'smtp', 'form': 'null', 'k': 0, 'ext': 'size',
+                'b': 0, 'stages': 1})
     if tier == 'quick':
         out.append({'kind': 'smtp', 'form': 'atext', 'k': 3, 'ext': 'none',
                     'b': 1})
@@ -189,8 +194,30 @@ def run_smtp(cell):
     vclass = api.choice('verdict', 3)
     verdict = None if vclass == 0 else \
         ['4', '5'][vclass - 1] + api.sstr('vcode', 2, 0x30, 0x39)
-    queue = RecQueue(verdict)
+    # where the edge refuses: 0 = at end of data (queue verdict), 1 = the
+    # sender, 2 = every recipient, 3 = the first recipient only
+    stage = api.choice('stage', 4) if verdict is not None and \
+        cell.get('stages') else 0
+    if stage == 3:
+        # a 421 reply ends the session: no partial delivery to judge
+        api.assume(verdict != '421')
+    queue = RecQueue(verdict if stage == 0 else None)
     kw = {}
+    if stage:
+        from slimta.edge.smtp import SmtpValidators
+
+        class Refuse(SmtpValidators):
+            def handle_mail(self, reply, sender, params):
+                if stage == 1:
+                    reply.code = verdict
+                    reply.message = 'edge refuses the sender'
+
+            def handle_rcpt(self, reply, recipient, params):
+                if stage == 2 or (stage == 3 and
+                                  recipient != 'second@example.com'):
+                    reply.code = verdict
+                    reply.message = 'edge refuses the recipient'
+        kw['validator_class'] = Refuse
     if cell['ext'] == 'size':
         kw['max_size'] = 100000
     if cell['ext'] == 'auth':
@@ -246,7 +273,7 @@ def run_smtp(cell):
         qc.run_until_quiescent()
     finally:
         es.Server = RealServer
-    info = dict(form=form, ext=cell['ext'], k=k)
+    info = dict(form=form, ext=cell['ext'], k=k, stage=stage)
     if not api.prove(len(out) == 1, 'attempt-never-finished', **info):
         return
     kind, val = out[0]
@@ -254,16 +281,31 @@ def run_smtp(cell):
     if not api.prove(kind != 'other', 'non-relay-exception',
                      exc=type(val).__name__, **info):
         return
+    if stage in (1, 2):
+        # envelope refused: nothing reaches the queue behind the edge and
+        # the relay reports the reply the edge gave for MAIL / RCPT
+        api.prove(len(queue.got) == 0, 'message-accepted-although-refused',
+                  **info)
+        if api.prove(kind == 'relay-error',
+                     'refused-message-reported-as-success', **info):
+            api.prove(val.reply.code == verdict,
+                      'result-code-differs-from-edge-reply',
+                      got=val.reply.code, **info)
+        return
+    if stage == 3:
+        rcpts_expected = rcpts[1:]
+    else:
+        rcpts_expected = rcpts
     if not api.prove(len(queue.got) == 1, 'edge-did-not-receive-the-message',
                      n=len(queue.got), result=kind, **info):
         return
     got = queue.got[0]
     api.observe('got_sender', got.sender)
     api.prove(got.sender == sender, 'sender-changed', **info)
-    api.prove(len(got.recipients) == len(rcpts),
+    api.prove(len(got.recipients) == len(rcpts_expected),
               'recipient-count-changed', n=len(got.recipients), **info)
-    if len(got.recipients) == len(rcpts):
-        for i, (a, b) in enumerate(zip(got.recipients, rcpts)):
+    if len(got.recipients) == len(rcpts_expected):
+        for i, (a, b) in enumerate(zip(got.recipients, rcpts_expected)):
             api.prove(a == b, 'recipient-changed', index=i, **info)
     gh, gb = got.flatten()
     api.prove(gh == sent_h, 'header-block-changed', **info)
@@ -282,7 +324,20 @@ def run_smtp(cell):
                 api.prove(str(adv[name]) == seen[name],
                           'extension-parameter-changed', name=name, **info)
     # the relay reports what the edge answered
-    if verdict is None:
+    if stage == 3:
+        if api.prove(kind == 'value' and hasattr(val, 'values'),
+                     'partial-refusal-not-reported-per-recipient', **info):
+            vals = list(val.values())
+            if api.prove(len(vals) == 2, 'result-count-differs', **info):
+                v0, v1 = vals
+                api.prove(isinstance(v0, RelayError) and
+                          v0.reply.code == verdict,
+                          'result-code-differs-from-edge-reply', rcpt=0,
+                          **info)
+                api.prove(isinstance(v1, Reply) and v1.code == '250',
+                          'result-code-differs-from-edge-reply', rcpt=1,
+                          **info)
+    elif verdict is None:
         if api.prove(kind == 'value', 'accepted-message-reported-as-failure',
                      **info):
             vals = list(val.values()) if hasattr(val, 'values') \
